@@ -13,7 +13,7 @@ from vmon.res import Result, exc_name
 
 ID = "C09"
 LEVEL = "exploration"
-CASES = {"quick": 12000, "thorough": 240000}
+CASES = {"quick": 12000, "thorough": 720000}
 RULE = ("seeded random tuples of 1-4 frames with overlapping/disjoint/identical column sets, promotable dtype pairs, NA fill for every "
         "dtype, 0-row and 0-column operands in any position (rbind) and single frames x {select, unselect, rename incl. swaps/cycles, "
         "cbind incl. duplicate names and 1-row operands, update, modify scalar/vector/callable add+replace, colnames= permutations and "
